@@ -17,17 +17,18 @@ import (
 func init() { register("C18", runC18) }
 
 type c18Case struct {
-	mechs     []string
-	tlsOff    bool
-	tlsWord   string // another spelling given for server.tls (only "disable" itself disables TLS)
-	hostSel   string
-	queryKey  string
-	tokenAuth bool
-	userToken bool
-	keytab    bool
-	hosts     int
-	lens      map[string]int // key name -> configured length (-1 absent)
-	via       string         // file | env | both
+	mechs      []string
+	tlsOff     bool
+	tlsWord    string // another spelling given for server.tls (only "disable" itself disables TLS)
+	basicAlias bool   // local authentication is spelled "basic"
+	hostSel    string
+	queryKey   string
+	tokenAuth  bool
+	userToken  bool
+	keytab     bool
+	hosts      int
+	lens       map[string]int // key name -> configured length (-1 absent)
+	via        string         // file | env | both
 }
 
 var c18Keys = []string{"security.paatokenencryptionkey", "security.paatokensigningkey", "security.usertokenencryptionkey", "server.sessionkey", "server.sessionencryptionkey"}
@@ -114,10 +115,18 @@ func startC18(c *c18Case, dir string, idpURL, sock, cert, key, keytab, krb5 stri
 	if c.userToken {
 		y.extraSec = append(y.extraSec, "enableusertoken: true")
 	}
-	y.auth = c.mechs
+	spelled := append([]string{}, c.mechs...)
+	if c.basicAlias {
+		for i, m := range spelled {
+			if m == "local" {
+				spelled[i] = "basic" // the accepted alias
+			}
+		}
+	}
+	y.auth = spelled
 	if c.via == "env" {
 		y.auth = nil
-		env = append(env, "RDPGW_SERVER__AUTHENTICATION="+strings.Join(c.mechs, " "))
+		env = append(env, "RDPGW_SERVER__AUTHENTICATION="+strings.Join(spelled, " "))
 	}
 	for i := 0; i < c.hosts; i++ {
 		y.hosts = append(y.hosts, fmt.Sprintf("10.0.0.%d:3389", i+1))
@@ -156,7 +165,7 @@ func runC18(r *Run) {
 	drift := 0
 	first := ""
 
-	lensChoices := []int{-1, 0, 1, 31, 32, 33}
+	lensChoices := []int{-1, 0, 1, 16, 24, 31, 32, 33}
 	mk := func() *c18Case {
 		c := &c18Case{lens: map[string]int{}, via: []string{"file", "file", "env", "both"}[rng.Intn(4)]}
 		for _, m := range []string{"openid", "kerberos", "local", "ntlm"} {
@@ -167,6 +176,7 @@ func runC18(r *Run) {
 		if len(c.mechs) == 0 {
 			c.mechs = []string{[]string{"openid", "local", "ntlm", "kerberos"}[rng.Intn(4)]}
 		}
+		c.basicAlias = rng.Intn(2) == 0
 		c.tlsOff = rng.Intn(2) == 0
 		if rng.Intn(4) == 0 { // another spelling of the TLS mode: only "disable" itself disables TLS
 			c.tlsOff = false
@@ -261,8 +271,8 @@ func runC18(r *Run) {
 	for i, c := range cases {
 		r.Count(lines[i] + c.via)
 		want := strings.HasPrefix(ans[i], "running")
-		rep := fmt.Sprintf("mechanisms=%v tls-disabled=%v (tls word %q) hostselection=%q querytokensigningkey=%d chars tokenauth=%v enableusertoken=%v keytab=%v hosts=%d key lengths=%v given by %s\nobserved: running=%v\nstderr tail: %s\nmodel: %s\n",
-			c.mechs, c.tlsOff, c.tlsWord, c.hostSel, len(c.queryKey), c.tokenAuth, c.userToken, c.keytab, c.hosts, c.lens, c.via, observed[i].running, tail(observed[i].stderr, 400), ans[i])
+		rep := fmt.Sprintf("mechanisms=%v tls-disabled=%v (tls word %q, local spelled basic: %v) hostselection=%q querytokensigningkey=%d chars tokenauth=%v enableusertoken=%v keytab=%v hosts=%d key lengths=%v given by %s\nobserved: running=%v\nstderr tail: %s\nmodel: %s\n",
+			c.mechs, c.tlsOff, c.tlsWord, c.basicAlias, c.hostSel, len(c.queryKey), c.tokenAuth, c.userToken, c.keytab, c.hosts, c.lens, c.via, observed[i].running, tail(observed[i].stderr, 400), ans[i])
 		if i < 2 {
 			r.Sample(map[string]interface{}{"mechanisms": c.mechs, "tls_disabled": c.tlsOff, "key_lengths": c.lens, "via": c.via, "running": observed[i].running, "model": ans[i]})
 		}
@@ -284,12 +294,33 @@ func runC18(r *Run) {
 		jar, _ := cookiejar.New(nil)
 		return &http.Client{Jar: jar, CheckRedirect: func(*http.Request, []*http.Request) error { return http.ErrUseLastResponse }, Timeout: 8 * time.Second}
 	}
+	type crossCase struct {
+		klen int    // length given to the keys named in only (all keys when only is empty)
+		only string // one key gets klen, the others 32 characters
+		via  string
+	}
+	var ccs []crossCase
 	for _, klen := range []int{-1, 0, 1, 31, 32, 33} {
 		for _, via := range []string{"file", "env"} {
+			ccs = append(ccs, crossCase{klen, "", via})
+		}
+	}
+	// one key of an unusual length (valid AES key sizes among them), the others as configured
+	for _, only := range []string{"server.sessionkey", "server.sessionencryptionkey", "security.paatokensigningkey"} {
+		for _, klen := range []int{16, 24} {
+			ccs = append(ccs, crossCase{klen, only, "file"})
+		}
+	}
+	for _, cc := range ccs {
+		{
+			klen, via := cc.klen, cc.via
 			c := base()
 			c.via = via
 			for _, k := range c18Keys {
 				c.lens[k] = klen
+				if cc.only != "" && k != cc.only {
+					c.lens[k] = 32
+				}
 			}
 			a := startC18(c, dir, idp.srv.URL, sock, cert, key, keytab, krb5, 7)
 			b := startC18(c, dir, idp.srv.URL, sock, cert, key, keytab, krb5, 7)
@@ -338,8 +369,23 @@ func runC18(r *Run) {
 				}
 			}
 			r.Count(fmt.Sprintf("cross:%d:%s", klen, via))
-			rep := fmt.Sprintf("two instances started from the same configuration (all five keys %d characters, given by %s)\nsession cookie of A at B: %s\nPAA token of A at B: %s\n", klen, via, crossCookie, crossToken)
+			which := "all five keys"
+			if cc.only != "" {
+				which = cc.only + " (the other keys 32 characters)"
+			}
+			rep := fmt.Sprintf("two instances started from the same configuration (%s: %d characters, given by %s)\nsession cookie of A at B: %s\nPAA token of A at B: %s\n", which, klen, via, crossCookie, crossToken)
 			shared := klen == 32
+			if cc.only != "" {
+				// a key that is not 32 characters long is replaced per instance: what depends on it is not shared
+				cookieMustDiffer := strings.HasPrefix(cc.only, "server.session")
+				tokenMustDiffer := cc.only == "security.paatokensigningkey"
+				if (cookieMustDiffer && crossCookie == "accepted") || (tokenMustDiffer && crossToken == "accepted") {
+					r.Violation("c18-shared-fresh-keys", "with absent or short keys a session cookie or token of one instance is valid on another (no fresh random key was substituted)", rep)
+				}
+				a.stop()
+				b.stop()
+				continue
+			}
 			if !shared && (crossCookie == "accepted" || crossToken == "accepted") {
 				r.Violation("c18-shared-fresh-keys", "with absent or short keys a session cookie or token of one instance is valid on another (no fresh random key was substituted)", rep)
 			}
